@@ -412,7 +412,7 @@ pub fn record(abs: &AbsReplay) -> Recorded {
 	}
 	let mut rows = vec![];
 	let mut serial = 0usize;
-	let mut next = |s: &mut usize| {
+	let next = |s: &mut usize| {
 		*s += 1;
 		*s
 	};
